@@ -268,6 +268,8 @@ class SQueue:
     def __init__(self, maxsize=0):
         self.maxsize = maxsize
         self.d = collections.deque()
+        self.queue = self.d              # queue.Queue exposes its deque as .queue
+        self.mutex = SLock()
 
     def qsize(self):
         S.shim_ops['queue.qsize'] += 1
